@@ -197,6 +197,7 @@ inline void set_cur(const std::string &t) {
 // crash: flush the current case so the runner can report it
 inline void crash_dump(const char *kind) {
   State &s = st();
+  if (s.replay) return;  // a replayed case is already a file
   char path[1024];
   snprintf(path, sizeof path, "%s/%s.%s.crash", s.outdir.c_str(), s.variant.c_str(),
            s.cur_check.empty() ? "none" : s.cur_check.c_str());
